@@ -2,12 +2,14 @@ use crate::engine::runner::Report;
 
 pub mod c01;
 pub mod c02;
+pub mod c14;
 
 pub type RunFn = fn(&mut Report);
 
 pub const REGISTRY: &[(&str, RunFn)] = &[
     ("C01", c01::run),
     ("C02", c02::run),
+    ("C14", c14::run),
 ];
 
 pub fn lookup(id: &str) -> Option<(&'static str, RunFn)> {
